@@ -3,8 +3,7 @@
 
   A `BufRead` is modelled as the list of things its `fill_buf` will do next:
   hand out a non-empty chunk, report `Interrupted` once, or fail with a fatal
-  error. `read_until` / `read_exact` follow std's documented loops (retry on
-  `Interrupted`, stop at the delimiter, `UnexpectedEof` when a byte is missing).
+  error. `read_until` follows std's documented loop (retry on `Interrupted`, stop at the delimiter).
 -/
 import RosuModel.Model.Utf
 namespace Rosu
@@ -42,17 +41,32 @@ def Sched.ofBytes (bs : List UInt8) : Sched := if bs.isEmpty then [] else [.chun
 def pushRest (rest : List UInt8) (s : Sched) : Sched :=
   if rest.isEmpty then s else .chunk rest :: s
 
-/-- `Decoder::read_bom`. A chunk of one or two bytes is consumed and the loop goes on. -/
-def readBom : Sched → Except IoKind Encoding × Sched
-  | [] => (.ok (Encoding.fromBom []).1, [])
-  | .intr :: s => readBom s
-  | .fail k :: s => (.error k, s)
-  | .chunk bs :: s =>
-    if bs.length = 0 then readBom s
-    else if bs.length ≥ 3 then
-      let (enc, n) := Encoding.fromBom bs
-      (.ok enc, pushRest (bs.drop n) s)
-    else readBom s
+/-- the tail of `Decoder::read_bom`: decide on the collected prefix, strip the BOM from it. -/
+def finishBom (pfx : List UInt8) : Except IoKind (Encoding × List UInt8) :=
+  .ok ((Encoding.fromBom pfx).1, pfx.drop (Encoding.fromBom pfx).2)
+
+/-- the loop of `Decoder::read_bom` with the bytes collected so far (`pfx`, fewer than three).
+Fast path: nothing collected and the chunk has at least three bytes — decide on the chunk and
+consume only the BOM. Otherwise take `min available (3 - pfx.length)` bytes; stop at three bytes
+or at end of input. (When fewer than three bytes are collected after a take, the whole chunk was
+taken, so the loop goes on with the next event.) -/
+def readBomLoop : List UInt8 → Sched → Except IoKind (Encoding × List UInt8) × Sched
+  | pfx, [] => (finishBom pfx, [])
+  | pfx, .intr :: s => readBomLoop pfx s
+  | _, .fail k :: s => (.error k, s)
+  | pfx, .chunk bs :: s =>
+    if bs.length = 0 then readBomLoop pfx s
+    else if pfx.isEmpty && decide (bs.length ≥ 3) then
+      (.ok ((Encoding.fromBom bs).1, []), pushRest (bs.drop (Encoding.fromBom bs).2) s)
+    else
+      let take := min bs.length (3 - pfx.length)
+      if (pfx ++ bs.take take).length = 3 then
+        (finishBom (pfx ++ bs.take take), pushRest (bs.drop take) s)
+      else readBomLoop (pfx ++ bs.take take) s
+
+/-- `Decoder::read_bom`: the encoding and the bytes taken out of the reader that are not part of
+the BOM (`Decoder::new` reads them first: `Cursor::new(prefix).chain(reader)`). -/
+def readBom (s : Sched) : Except IoKind (Encoding × List UInt8) × Sched := readBomLoop [] s
 
 /-- split a chunk at the first LF: bytes up to and including it, and what follows. -/
 def splitAtLF : List UInt8 → List UInt8 × Option (List UInt8)
@@ -73,27 +87,53 @@ def readUntil : Sched → List UInt8 → Except IoKind (List UInt8) × Sched
     | (pre, some rest) => (.ok (acc ++ pre), pushRest rest s)
     | (pre, none) => readUntil s (acc ++ pre)
 
-/-- `Read::read_exact` for a single byte. -/
-def readByte : Sched → Except IoKind UInt8 × Sched
-  | [] => (.error .unexpectedEof, [])
-  | .intr :: s => readByte s
+/-- `Decoder::next_byte`: `fill_buf`/`consume(1)`, retry on `Interrupted`, `None` at end of input. -/
+def nextByte : Sched → Except IoKind (Option UInt8) × Sched
+  | [] => (.ok none, [])
+  | .intr :: s => nextByte s
   | .fail k :: s => (.error k, s)
-  | .chunk [] :: s => readByte s
-  | .chunk (b :: bs) :: s => (.ok b, pushRest bs s)
+  | .chunk [] :: s => nextByte s
+  | .chunk (b :: bs) :: s => (.ok (some b), pushRest bs s)
 
 def endsWithLF (bs : List UInt8) : Bool := bs.getLast? == some 0x0A
 
-/-- `Decoder::read_line`, returning the raw buffer (`None` at end of input). -/
-def readRaw (enc : Encoding) (s : Sched) : Except IoKind (Option (List UInt8)) × Sched :=
-  match readUntil s [] with
+/-- the `loop` of `Decoder::read_line` with the line buffer so far. `body` is the buffer without
+its final 0x0A, so `last = body.length` and `read_buf[last - 1]` is `body`'s last byte.
+`fuel` bounds the number of `read_until` calls (each further call follows a byte that was read). -/
+def readLineLoop (enc : Encoding) : Nat → Sched → List UInt8 → Except IoKind (List UInt8) × Sched
+  | 0, s, buf => (.ok buf, s)
+  | fuel + 1, s, buf =>
+    match readUntil s buf with
+    | (.error k, s') => (.error k, s')
+    | (.ok buf', s') =>
+      if buf'.length = buf.length then (.ok buf', s')        -- `read_until` returned 0
+      else if !endsWithLF buf' then (.ok buf', s')            -- end of input without a line break
+      else
+        let body := buf'.dropLast
+        match enc with
+        | .utf8 => (.ok buf', s')
+        | .utf16be =>
+          if body.length % 2 == 1 && body.getLast? == some 0 then (.ok buf', s')
+          else readLineLoop enc fuel s' buf'
+        | .utf16le =>
+          if body.length % 2 == 0 then
+            match nextByte s' with
+            | (.error k, s'') => (.error k, s'')
+            | (.ok none, s'') => (.ok buf', s'')
+            | (.ok (some b), s'') =>
+              if b == 0 then (.ok (buf' ++ [b]), s'')
+              else readLineLoop enc fuel s'' (buf' ++ [b])
+          else readLineLoop enc fuel s' buf'
+
+/-- `Decoder::read_line` with the loop bound given, returning the raw buffer (`None` at end of input). -/
+def readRawFuel (enc : Encoding) (fuel : Nat) (s : Sched) : Except IoKind (Option (List UInt8)) × Sched :=
+  match readLineLoop enc fuel s [] with
   | (.error k, s') => (.error k, s')
-  | (.ok buf, s') =>
-    if buf.isEmpty then (.ok none, s')
-    else if enc == .utf16le && endsWithLF buf then
-      match readByte s' with
-      | (.error k, s'') => (.error k, s'')
-      | (.ok b, s'') => (.ok (some (buf ++ [b])), s'')
-    else (.ok (some buf), s')
+  | (.ok buf, s') => (if buf.isEmpty then .ok none else .ok (some buf), s')
+
+/-- `Decoder::read_line`: more iterations than there are events and bytes left cannot happen. -/
+def readRaw (enc : Encoding) (s : Sched) : Except IoKind (Option (List UInt8)) × Sched :=
+  readRawFuel enc (Sched.size s + 1) s
 
 /-- `Decoder::curr_line`. -/
 def currLine (enc : Encoding) (buf : List UInt8) : Str := trimEnd (enc.decode buf)
@@ -102,7 +142,7 @@ def currLine (enc : Encoding) (buf : List UInt8) : Str := trimEnd (enc.decode bu
 def readAllFuel (enc : Encoding) : Nat → Sched → List Str × Option IoKind
   | 0, _ => ([], none)
   | fuel + 1, s =>
-    match readRaw enc s with
+    match readRawFuel enc (fuel + 1) s with    -- `fuel + 1` bounds what is left to read, see `readAll`
     | (.error k, _) => ([], some k)
     | (.ok none, _) => ([], none)
     | (.ok (some buf), s') =>
